@@ -881,8 +881,18 @@ where
     P: AsRef<Path>,
 {
     let file = log::open(utils::hintfile_name(&path, fileid))?;
+    let datafile_len = fs::metadata(utils::datafile_name(&path, fileid))?.len();
     let mut hintfile_iter = LogIterator::new(file)?;
+    let mut entries = Vec::new();
     while let Some((_, entry)) = hintfile_iter.next::<HintFileEntry>()? {
+        // The hint file is ahead of its data file when a merge was interrupted and the data
+        // was not yet on disk. Report the hint file as missing so the data file is scanned.
+        if entry.pos + entry.len > datafile_len {
+            return Err(io::Error::from(io::ErrorKind::NotFound).into());
+        }
+        entries.push(entry);
+    }
+    for entry in entries {
         let keydir_entry = KeyDirEntry {
             fileid,
             len: entry.len,
